@@ -18,7 +18,7 @@ def shipped_dirs():
 def run(ctx):
     quick = ctx.quick
     hashseeds = (0, 1, 2) if quick else tuple(range(16))
-    ctx.mc("MC_Combine", {"Three": "FALSE" if quick else "TRUE"}, ["OrderIndependent", "IsUnion"], workers=4, timeout=1500)
+    ctx.mc("MC_Combine", {"Three": "FALSE" if quick else "TRUE"}, ["OrderIndependent", "IsUnion"], workers=4, timeout=3600)
     ctx.mc("MC_Combine", {"Three": "FALSE"}, ["BadSkipKnown"], workers=4, expect_violation=True)
     cases = [gen_combine.split_case(ctx.seed, 130000 + i) for i in range(120 if quick else 2500)]
     # the shipped per-agent directories, in sorted and reversed discovery order
